@@ -3,6 +3,7 @@ import PcfgVerif.Properties.DetectCoreB
 import PcfgVerif.Properties.DetectCoreC
 import PcfgVerif.Lemmas.DetectD2
 import PcfgVerif.Lemmas.CountersLemmas
+import PcfgVerif.Lemmas.TrainerLemmas
 /-!
 # C05 — training segments every password into a lossless, soundly typed tiling
 
@@ -205,6 +206,24 @@ theorem C05_len_indexed_counters (calls : List (List CPs)) (n : Nat) (y : CPs) :
 example : (([[cpsOfString "sun", cpsOfString "tiger"], [cpsOfString "sun"]].foldl updateLenIndexed []).get 3).count (cpsOfString "sun") = 2 ∧
     (([[cpsOfString "sun", cpsOfString "tiger"], [cpsOfString "sun"]].foldl updateLenIndexed []).get 5).count (cpsOfString "sun") = 0 := by
   decide
+
+/-- **the counters of a whole training run are the tallies of the segmentation** (`Trainer.train` = pass 1 + pass 2 of the trainer as
+one function of the password list; driven against the real trainer on whole lists, every counter and its insertion order): for each
+of the five length-indexed categories the Counter filed under length `n` counts exactly the items of length `n` that the parses of the
+list's passwords produced — with the multi-word table of the *whole* list (pass 1 is complete before pass 2 starts) — and nothing else -/
+theorem C05_trained_counters (U : UEnv) (cfg : MWCfg) (pws : List CPs) (n : Nat) (y : CPs) :
+    let t := Trainer.pass1 U cfg pws
+    let tally := fun (items : Parsed → List CPs) => (pws.flatMap fun pw => items (parse U cfg t pw)).count y
+    ((Trainer.train U cfg pws).alpha.get n).count y = (if y.length = n then tally (·.alphas) else 0) ∧
+    ((Trainer.train U cfg pws).masks.get n).count y = (if y.length = n then tally (·.masks) else 0) ∧
+    ((Trainer.train U cfg pws).digits.get n).count y = (if y.length = n then tally (·.digits) else 0) ∧
+    ((Trainer.train U cfg pws).other.get n).count y = (if y.length = n then tally (·.others) else 0) ∧
+    ((Trainer.train U cfg pws).keyboard.get n).count y = (if y.length = n then tally (·.walks) else 0) :=
+  ⟨Trainer.train_len_indexed U cfg (·.alpha) (·.alphas) (fun _ _ => rfl) rfl pws n y,
+   Trainer.train_len_indexed U cfg (·.masks) (·.masks) (fun _ _ => rfl) rfl pws n y,
+   Trainer.train_len_indexed U cfg (·.digits) (·.digits) (fun _ _ => rfl) rfl pws n y,
+   Trainer.train_len_indexed U cfg (·.other) (·.others) (fun _ _ => rfl) rfl pws n y,
+   Trainer.train_len_indexed U cfg (·.keyboard) (·.walks) (fun _ _ => rfl) rfl pws n y⟩
 
 /-- table facts the detectors rely on -/
 theorem C05_tables : Generated.Tables.minKeyboardRun = 4 ∧
